@@ -164,6 +164,53 @@ class Lin:
         return s
 
 
+def combine_norm(p, kn, n, kp):
+    """normalize(p*kn + n*kp) fused (p, n: Lin; kn, kp: positive ints). Returns Lin / True / False."""
+    a, b = p.terms, n.terms
+    i = j = 0
+    la, lb = len(a), len(b)
+    out = []
+    g = 0
+    while i < la and j < lb:
+        xa, ca = a[i]
+        xb, cb = b[j]
+        if xa == xb:
+            c = ca * kn + cb * kp
+            if c:
+                out.append((xa, c))
+                g = gcd(g, c)
+            i += 1
+            j += 1
+        elif xa < xb:
+            c = ca * kn
+            out.append((xa, c))
+            g = gcd(g, c)
+            i += 1
+        else:
+            c = cb * kp
+            out.append((xb, c))
+            g = gcd(g, c)
+            j += 1
+    while i < la:
+        xa, ca = a[i]
+        c = ca * kn
+        out.append((xa, c))
+        g = gcd(g, c)
+        i += 1
+    while j < lb:
+        xb, cb = b[j]
+        c = cb * kp
+        out.append((xb, c))
+        g = gcd(g, c)
+        j += 1
+    k = p.const * kn + n.const * kp
+    if not out:
+        return k <= 0
+    if g > 1:
+        return Lin(tuple((x, c // g) for x, c in out), -((-k) // g))
+    return Lin(tuple(out), k)
+
+
 def normalize(e):
     """normalise constraint e<=0: divide by gcd of coefs, tighten constant. Returns Lin or
     True (trivially true) / False (trivially false)."""
@@ -405,8 +452,7 @@ def _infeasible(work):
                 kp = p.coef(a)
                 for n in N:
                     kn = -n.coef(a)
-                    comb = p.scale(kn) + n.scale(kp)
-                    s = normalize(comb)
+                    s = combine_norm(p, kn, n, kp)
                     if s is False:
                         return True
                     if s is True:
@@ -483,6 +529,11 @@ class Store:
             return True
         if n is False:
             return self.is_bottom()
+        if n in self.cons:
+            return True
+        qb = self.quick_bounds(n)
+        if qb[1] is not None and qb[1] <= 0:
+            return True
         negq = normalize(-n + 1)   # e >= 1
         if negq is False:
             return True
@@ -688,7 +739,7 @@ def _project(cons, keep):
             kp = p.coef(a)
             for n in N:
                 kn = -n.coef(a)
-                s = normalize(p.scale(kn) + n.scale(kp))
+                s = combine_norm(p, kn, n, kp)
                 if s is False:
                     return None
                 if s is True:
